@@ -1,37 +1,9 @@
 // t_fclass.cpp - C13: fpclassify / isnan / isinf / isfinite / isnormal / signbit and the quiet comparisons.
-#include "vx_float.hpp"
+
+#include "ops_fclass.hpp"
 
 namespace vx {
-
-#define VX_FC1_OP(NAME, EXPR, MODEL)                                                            \
-    struct NAME : OpBase {                                                                      \
-        static const int arity = 1;                                                             \
-        static const char* name() { return #NAME; }                                             \
-        template<class V> static auto apply(V a, V, V) VX_AUTO(EXPR)                            \
-        template<class S> static std::uint64_t model(S a, S, S) { return MODEL; }               \
-        template<class S> static bool nontrivial(S a, S, S) { return a != a || std::isinf(a) || a == S(0) || std::fabs(a) < std::numeric_limits<S>::min() || std::signbit(a); } \
-    };
-VX_FC1_OP(fpclassify, avel::fpclassify(un(a)), (std::uint64_t(std::int64_t(std::fpclassify(a))) & low_mask(8 * sizeof(S))))
-VX_FC1_OP(isnan, avel::isnan(un(a)), (std::isnan(a) ? 1 : 0))
-VX_FC1_OP(isinf, avel::isinf(un(a)), (std::isinf(a) ? 1 : 0))
-VX_FC1_OP(isfinite, avel::isfinite(un(a)), (std::isfinite(a) ? 1 : 0))
-VX_FC1_OP(isnormal, avel::isnormal(un(a)), (std::isnormal(a) ? 1 : 0))
-VX_FC1_OP(signbit, avel::signbit(un(a)), (std::signbit(a) ? 1 : 0))
-
-#define VX_FC2_OP(NAME, EXPR, MODEL)                                                            \
-    struct NAME : OpBase {                                                                      \
-        static const int arity = 2;                                                             \
-        static const char* name() { return #NAME; }                                             \
-        template<class V> static auto apply(V a, V b, V) VX_AUTO(EXPR)                          \
-        template<class S> static std::uint64_t model(S a, S b, S) { return (MODEL) ? 1 : 0; }   \
-        template<class S> static bool nontrivial(S a, S b, S) { return a != a || b != b || a == b || a == S(0) || b == S(0) || std::signbit(a) != std::signbit(b); } \
-    };
-VX_FC2_OP(isgreater, avel::isgreater(un(a), un(b)), std::isgreater(a, b))
-VX_FC2_OP(isgreaterequal, avel::isgreaterequal(un(a), un(b)), std::isgreaterequal(a, b))
-VX_FC2_OP(isless, avel::isless(un(a), un(b)), std::isless(a, b))
-VX_FC2_OP(islessequal, avel::islessequal(un(a), un(b)), std::islessequal(a, b))
-VX_FC2_OP(islessgreater, avel::islessgreater(un(a), un(b)), std::islessgreater(a, b))
-VX_FC2_OP(isunordered, avel::isunordered(un(a), un(b)), std::isunordered(a, b))
+using namespace ofc;
 
 template<class V>
 struct PerType {
